@@ -392,7 +392,9 @@ impl ObsGen<'_, '_> {
                     Some(id) => *id,
                     None => {
                         let id = self.infoset_acts[p].len();
-                        let arity = match self.s.weighted(&[40, 20, 8, 4, 1]) {
+                        // (a game that has one wide infoset tends to get more of them)
+                        let wide_weight = if self.infoset_acts.iter().any(|v| v.iter().any(|a| a.len() > 4)) { 12 } else { 1 };
+                        let arity = match self.s.weighted(&[40, 20, 8, 4, wide_weight]) {
                             0 => 2,
                             1 => 3,
                             2 => 4,
@@ -761,7 +763,9 @@ pub fn gen_profile(s: &mut Stream, info: &Info) -> Profile {
                 }
                 _ => {
                     let tiny = s.below(n);
-                    let mut w: Vec<f64> = (0..n).map(|i| if i == tiny { 1e-12 } else { 1.0 }).collect();
+                    // down to subnormal probabilities
+                    let eps = [1e-12, 1e-12, 1e-17, 1e-100, 1e-310, 5e-324][s.below(6)];
+                    let mut w: Vec<f64> = (0..n).map(|i| if i == tiny { eps } else { 1.0 }).collect();
                     let tot: f64 = w.iter().sum();
                     w.iter_mut().for_each(|x| *x /= tot);
                     w
